@@ -85,13 +85,16 @@ func c16Strategy(rt *rapid.T) (edsv1.ExtendedDaemonSetSpecStrategy, int) {
 		c.Duration = c16Dur(rt, "canaryDuration")
 		c.NoRestartsDuration = c16Dur(rt, "noRestartsDuration")
 		c.ValidationMode = rapid.SampledFrom([]edsv1.ExtendedDaemonSetSpecStrategyCanaryValidationMode{"", "auto", "manual"}).Draw(rt, "validationMode")
-		switch rapid.IntRange(0, 3).Draw(rt, "nodeSelector") {
+		switch rapid.IntRange(0, 4).Draw(rt, "nodeSelector") {
 		case 1:
 			c.NodeSelector = &metav1.LabelSelector{}
 		case 2:
 			c.NodeSelector = &metav1.LabelSelector{MatchLabels: map[string]string{"zone": "a"}}
 		case 3:
 			c.NodeSelector = &metav1.LabelSelector{MatchExpressions: []metav1.LabelSelectorRequirement{{Key: "zone", Operator: metav1.LabelSelectorOpIn}}} // unusable: In without values
+			boundary++
+		case 4:
+			c.NodeSelector = &metav1.LabelSelector{MatchLabels: map[string]string{"pool": "canary"}} // matches no node (yet)
 			boundary++
 		}
 		if rapid.Bool().Draw(rt, "antiAffinity") {
@@ -142,6 +145,7 @@ func c16Strategy(rt *rapid.T) (edsv1.ExtendedDaemonSetSpecStrategy, int) {
 var c16Env struct {
 	FailEveryPodWrite int  // every k-th pod write of the replica-set controller is refused (0 = none)
 	ShortGaps         bool // rounds 2s apart (inside reconcileFrequency) instead of 11s
+	FewNodes          int  // 0 = three nodes; 1 = a cluster without nodes; 2 = a single node
 }
 
 func c16Check(strategy edsv1.ExtendedDaemonSetSpecStrategy, mode edsv1.ExtendedDaemonSetSpecStrategyCanaryValidationMode, templateName string, reconcile bool) (vs []mon.V) {
@@ -250,7 +254,7 @@ func c16Check(strategy edsv1.ExtendedDaemonSetSpecStrategy, mode edsv1.ExtendedD
 	}
 	// reconciliation of the (undefaulted) object: results or errors, never a crash; the canary paths run too
 	c := sim.New(sim.Options{DefaultValidationMode: mode})
-	for i := 0; i < 3; i++ {
+	for i := 0; i < map[int]int{0: 3, 1: 0, 2: 1}[c16Env.FewNodes]; i++ {
 		c.AddNode(fmt.Sprintf("n%d", i), map[string]string{"zone": "a"}, nil)
 	}
 	c.Add(in.DeepCopy())
@@ -381,7 +385,7 @@ func userSetChanged(a, b reflect.Value, path string) []string {
 }
 
 func TestC16Lattice(t *testing.T) {
-	rec := evid.New("TestC16Lattice", "C16", "strategy drawn from the boundary lattice of every field (absent, 0, negative, 1, huge, percent, malformed percent, plain string; durations <=0 and >0; booleans; validation mode unset/auto/manual; canary block and sub-blocks absent/present; unusable canary nodeSelector) x controller default mode x template name; oracle: Default idempotent, recognised as defaulted, every dereferenced field filled, no user value changed, Validate returns and rejects the documented cases, and 11 reconcile rounds (incl. a template change so the canary paths run, pod restarts; optionally every k-th pod write refused and rounds inside reconcileFrequency) never panic; non-trivial = at least one field at a boundary value; distinct by JSON of the strategy")
+	rec := evid.New("TestC16Lattice", "C16", "strategy drawn from the boundary lattice of every field (absent, 0, negative, 1, huge, percent, malformed percent, plain string; durations <=0 and >0; booleans; validation mode unset/auto/manual; canary block and sub-blocks absent/present; unusable canary nodeSelector, or one that matches no node, with or without anti-affinity keys) x cluster of 3, 1 or 0 nodes x controller default mode x template name; oracle: Default idempotent, recognised as defaulted, every dereferenced field filled, no user value changed, Validate returns and rejects the documented cases, and 11 reconcile rounds (incl. a template change so the canary paths run, pod restarts; optionally every k-th pod write refused and rounds inside reconcileFrequency) never panic; non-trivial = at least one field at a boundary value; distinct by JSON of the strategy")
 	t.Cleanup(func() {
 		if !t.Failed() {
 			rec.Done()
@@ -402,9 +406,10 @@ func TestC16Lattice(t *testing.T) {
 		}
 		c16Env.FailEveryPodWrite = rapid.SampledFrom([]int{0, 0, 1, 2, 3}).Draw(rt, "failEveryPodWrite")
 		c16Env.ShortGaps = rapid.IntRange(0, 3).Draw(rt, "shortGaps") == 0
+		c16Env.FewNodes = rapid.SampledFrom([]int{0, 0, 0, 1, 2}).Draw(rt, "fewNodes")
 		vs := c16Check(strategy, mode, tname, true)
-		faultDesc := fmt.Sprintf("failEveryPodWrite=%d shortGaps=%v", c16Env.FailEveryPodWrite, c16Env.ShortGaps)
-		c16Env.FailEveryPodWrite, c16Env.ShortGaps = 0, false
+		faultDesc := fmt.Sprintf("failEveryPodWrite=%d shortGaps=%v nodes=%d", c16Env.FailEveryPodWrite, c16Env.ShortGaps, map[int]int{0: 3, 1: 0, 2: 1}[c16Env.FewNodes])
+		c16Env.FailEveryPodWrite, c16Env.ShortGaps, c16Env.FewNodes = 0, false, 0
 		settle(rt, rec, vs, map[string]interface{}{"strategy": json.RawMessage(b), "defaultValidationMode": mode, "templateName": tname, "environment": faultDesc}, len(b), "")
 	})
 }
